@@ -124,52 +124,100 @@ Print Assumptions C16_within_is_component_extension.
 
 (* ---- Install and a refused derived name ---- *)
 
-(* "no process execution" is FALSE for Install: the source file is run (to
-   read its metadata) before the name derived from its file name is examined.
-   Witness: installing /s/notation-.. (executable, metadata name "..") *)
-Theorem C16_install_rejected_without_execution_refuted :
-  exists w root src ow,
-    is_abs root = true /\ src <> "/"
-    /\ (forall n, In n (candidates w src) -> valid_name n = false)
-    /\ candidates w src <> []
-    /\ let r := install w root src ow in
-       r_err r = EInvalid /\ exists p, In (EExec p true) (r_log r).
-Proof. exact install_exec_refuted. Qed.
-Print Assumptions C16_install_rejected_without_execution_refuted.
+(* raw_names w src = what follows "notation-" in the names of the regular files
+   the source offers (the file itself, or the files directly in the directory),
+   acceptable or not. The clause in full, for Install (code since /repo 30cc14e):
+   when every such name is one the validation refuses, Install fails, the source
+   is stat'ed (and read, if it is a directory) and nothing else happens: no
+   process runs, no mode bit is set, the file system is the one it started from *)
+Theorem C16_install_rejected_no_effect : forall w root src ow,
+  (forall n, In n (raw_names w src) -> valid_name n = false) ->
+  let r := install w root src ow in
+  r_err r <> ENone /\ r_fs r = w
+  /\ Forall (fun e => e = EStat src \/ e = EReadDir src) (r_log r).
+Proof. exact install_refused_no_effect. Qed.
+Print Assumptions C16_install_rejected_no_effect.
 
-(* "no file-system change" is FALSE for Install from a directory: the single
-   non-executable candidate of the source is made executable (setExecutable)
-   before its name is examined. Witness: directory /s holding a non-executable
-   notation-.. *)
-Theorem C16_install_rejected_without_change_refuted :
+(* the same with the hypothesis on the path the manager would compute: every
+   name the source offers would resolve somewhere else than the direct child *)
+Theorem C16_install_resolving_elsewhere_no_effect : forall w root src ow,
+  is_abs root = true ->
+  (forall n, In n (raw_names w src) ->
+     comps_of (pjoin [root; n]) <> (comps_of (clean root) ++ [n])%list) ->
+  let r := install w root src ow in
+  r_err r <> ENone /\ r_fs r = w
+  /\ Forall (fun e => e = EStat src \/ e = EReadDir src) (r_log r).
+Proof. exact install_elsewhere_no_effect. Qed.
+Print Assumptions C16_install_resolving_elsewhere_no_effect.
+
+(* every install source: it offers no acceptable name and nothing happens, or
+   Install works with an acceptable name of the source (a direct child of the
+   root) and every effect is on the source or on <root>/<name>; outside them the
+   file system is unchanged except for created ancestor directories *)
+Theorem C16_install_every_source : forall w root src ow,
+  is_abs root = true -> src <> "/" ->
+  let r := install w root src ow in
+  (candidates w src = [] /\ r_err r <> ENone /\ r_fs r = w
+   /\ Forall (fun e => e = EStat src \/ e = EReadDir src) (r_log r))
+  \/
+  (exists name,
+     In name (candidates w src) /\ valid_name name = true
+     /\ comps_of (pjoin [root; name]) = (comps_of (clean root) ++ [name])%list
+     /\ r_err r <> EInvalid
+     /\ Forall (fun e => withinb src (eff_path e) = true
+                         \/ withinb (allowed root name) (eff_path e) = true) (r_log r)
+     /\ (forall q, withinb src q = true \/ withinb (allowed root name) q = true
+                   \/ fs_lookup q (r_fs r) = fs_lookup q w
+                   \/ (fs_lookup q w = None /\ fs_lookup q (r_fs r) = Some NDir
+                       /\ In q (prefixes (allowed root name))))).
+Proof. exact install_total. Qed.
+Print Assumptions C16_install_every_source.
+
+(* the names Install works with are exactly the offered names that the
+   validation accepts *)
+Theorem C16_install_candidates_valid : forall w src n,
+  In n (candidates w src) -> valid_name n = true /\ In n (raw_names w src).
+Proof. exact (fun w src n H => conj (candidates_valid w src n H) (candidates_raw w src n H)). Qed.
+Print Assumptions C16_install_candidates_valid.
+
+(* EVERY operation (Get, Uninstall, Verify in any shape, Install, List): the
+   invalid-name error means that nothing at all has happened; Install never
+   returns it (it never reaches the manager's validation with a bad name) *)
+Theorem C16_invalid_name_means_no_effect : forall i,
+  wf i = true -> r_err (exec_op i) = EInvalid ->
+  r_log (exec_op i) = [] /\ r_fs (exec_op i) = world i.
+Proof. exact invalid_name_no_effect. Qed.
+Print Assumptions C16_invalid_name_means_no_effect.
+
+Theorem C16_install_never_invalid_name : forall w root src ow,
+  is_abs root = true -> src <> "/" -> r_err (install w root src ow) <> EInvalid.
+Proof. exact install_not_invalid. Qed.
+Print Assumptions C16_install_never_invalid_name.
+
+(* the code BEFORE /repo 30cc14e (install_v0: parsePluginName accepted every
+   non-empty rest): the clause was false. The source file notation-.. was run ... *)
+Theorem C16_install_rejected_without_execution_v0_refuted :
   exists w root src ow,
     is_abs root = true /\ src <> "/"
-    /\ (forall n, In n (candidates w src) -> valid_name n = false)
-    /\ candidates w src <> []
-    /\ let r := install w root src ow in
+    /\ raw_names w src = [".."] /\ valid_name ".." = false
+    /\ let r := install_v0 w root src ow in
+       r_err r = EInvalid /\ In (EExec src true) (r_log r).
+Proof. exact install_v0_exec_refuted. Qed.
+Print Assumptions C16_install_rejected_without_execution_v0_refuted.
+
+(* ... and in a directory source it was first made executable *)
+Theorem C16_install_rejected_without_change_v0_refuted :
+  exists w root src ow,
+    is_abs root = true /\ src <> "/"
+    /\ raw_names w src = [".."] /\ valid_name ".." = false
+    /\ let r := install_v0 w root src ow in
        r_err r = EInvalid
        /\ fs_lookup "/s/notation-.." w = Some (NFile false (Some ("..", 1%N)))
        /\ fs_lookup "/s/notation-.." (r_fs r) = Some (NFile true (Some ("..", 1%N)))
-       /\ In (EChmod "/s/notation-..") (r_log r).
-Proof. exact install_chmod_refuted. Qed.
-Print Assumptions C16_install_rejected_without_change_refuted.
-
-(* the part that holds, exactly: when every name the source can stand for is
-   refused, Install fails, every effect (stat, readdir, chmod, exec) is on the
-   source or below it, and the only change of the whole file system is that a
-   regular file of the source may have gained its user-executable bit *)
-Theorem C16_install_rejected_partial : forall w root src ow,
-  is_abs root = true -> src <> "/" ->
-  (forall n, In n (candidates w src) -> valid_name n = false) ->
-  let r := install w root src ow in
-  r_err r <> ENone
-  /\ Forall (fun e => withinb src (eff_path e) = true) (r_log r)
-  /\ (forall q, fs_lookup q (r_fs r) = fs_lookup q w
-                \/ (withinb src q = true
-                    /\ exists x m, fs_lookup q w = Some (NFile x m)
-                                   /\ fs_lookup q (r_fs r) = Some (NFile true m))).
-Proof. exact install_invalid_exact. Qed.
-Print Assumptions C16_install_rejected_partial.
+       /\ In (EChmod "/s/notation-..") (r_log r)
+       /\ In (EExec "/s/notation-.." true) (r_log r).
+Proof. exact install_v0_chmod_refuted. Qed.
+Print Assumptions C16_install_rejected_without_change_v0_refuted.
 
 (* ---- "only ever": any sequence of operations on one plugin root ---- *)
 
@@ -301,12 +349,16 @@ Example C16_example_install :
         ("/v/p/r/fresh", NDir); ("/v/p/r", NDir); ("/v/p", NDir)] [].
 Proof. vm_compute. repeat split; auto. Qed.
 
-(* the hypotheses of C16_install_invalid_name / C16_install_rejected_partial
-   are met by the two witnesses *)
+(* the two sources of the v0 witnesses on the code as it is now: the hypothesis
+   of C16_install_rejected_no_effect holds, one stat (and one readdir), nothing else *)
 Example C16_example_install_refused :
-  candidates witness_fs "/s/notation-.." = [".."]
-  /\ candidates witness_fs_noexec "/s" = [".."]
-  /\ valid_name ".." = false.
+  raw_names witness_fs "/s/notation-.." = [".."] /\ candidates witness_fs "/s/notation-.." = []
+  /\ raw_names witness_fs_noexec "/s" = [".."] /\ candidates witness_fs_noexec "/s" = []
+  /\ valid_name ".." = false
+  /\ install witness_fs "/p/r" "/s/notation-.." true
+       = mk_out EOther MNone witness_fs [EStat "/s/notation-.."] []
+  /\ install witness_fs_noexec "/p/r" "/s" false
+       = mk_out EOther MNone witness_fs_noexec [EStat "/s"; EReadDir "/s"] [].
 Proof. vm_compute. repeat split; auto. Qed.
 
 (* listing: directories only; links (to directories, to files, dangling),
